@@ -60,6 +60,7 @@ def parseOp (ws : List String) : Option RepOp :=
   | ["setrev", a] => do some (.setRev (← a.toNat?))
   | ["ckpt", s] => some (.setCkpt s)
   | ["rbbegin", n] => some (.rbBegin n)
+  | ["rbbegin", n, "real"] => some (.rbBegin n)    -- the whole procedure run by sync.Task.AddReplica
   | ["rbreload"] => some .rbReload
   | ["lunmap"] => some .lunmap
   | ["rbpromote"] => some .rbPromote
